@@ -193,15 +193,17 @@ example : (collectSels [.spread [.field (some "a"), .spread [.field (some "b")]]
 example : (collectSels [.field (some "counter"), .field (some "counter")] []).length = 1 := by decide
 example : (collectSels [.spread [.field (some "counter")], .field none, .field (some "counter")] []).length = 1 := by decide
 
-/-- **refusals** — failures of operation selection and variable coercion, a non-subscription
-    operation, a runtime without stream support, a root selection that does not COLLECT to
+/-- **refusals** — a failure of operation selection, a non-subscription operation (refused as such
+    BEFORE its variables are looked at), a failure of variable coercion, a runtime without stream support, a root selection that does not COLLECT to
     exactly one field (however it is spelled), an undefined field, a field without subscription
     resolver are refused with the exception class the code documents, in that order of
     precedence, and in every refusal neither the subscription resolver was called nor a single
     event pulled from a source. Everything else is accepted. -/
 theorem refusals (r : SubRequest) :
     (r.opselOk = false → subscribe r = .refused "InvalidOperationError" false 0)
-    ∧ (r.opselOk = true → r.varsOk = false → subscribe r = .refused "VariablesCoercionError" false 0)
+    ∧ (r.opselOk = true → r.operation ≠ .subscription → subscribe r = .refused "RuntimeError" false 0)
+    ∧ (r.opselOk = true → r.operation = .subscription → r.varsOk = false →
+        subscribe r = .refused "VariablesCoercionError" false 0)
     ∧ (r.opselOk = true → r.varsOk = true → (r.operation ≠ .subscription ∨ r.streamRuntime = false) →
         subscribe r = .refused "RuntimeError" false 0)
     ∧ (r.opselOk = true → r.varsOk = true → r.operation = .subscription → r.streamRuntime = true →
@@ -213,9 +215,10 @@ theorem refusals (r : SubRequest) :
         (collectSels r.root []).length = 1 → r.fieldDefined = true → r.hasSubResolver = true →
         subscribe r = .stream (responses true ⟨[]⟩ 0 r.events) (r.events.length + 1)) := by
   obtain ⟨oo, vo, op, root, fd, hs, rt, evs⟩ := r
-  refine ⟨?_, ?_, ?_, ?_, ?_, ?_⟩
+  refine ⟨?_, ?_, ?_, ?_, ?_, ?_, ?_⟩
   · intro h; simp_all [subscribe]
   · intro h1 h2; simp_all [subscribe]
+  · intro h1 h2 h3; simp_all [subscribe]
   · rintro h1 h2 (h | h) <;> simp_all [subscribe]
   · intro h1 h2 h3 h4 h5; simp_all [subscribe]
   · intro h1 h2 h3 h4 h5 h6
@@ -233,19 +236,19 @@ theorem accepted_stream (r : SubRequest) (rs : List Result) (pulls : Nat) (h : s
   have R := refusals r
   by_cases c0 : r.opselOk = true
   case neg => rw [R.1 (by simpa using c0)] at h; cases h
-  by_cases c0' : r.varsOk = true
-  case neg => rw [R.2.1 c0 (by simpa using c0')] at h; cases h
   by_cases c1 : r.operation = .subscription
-  case neg => rw [R.2.2.1 c0 c0' (.inl c1)] at h; cases h
+  case neg => rw [R.2.1 c0 c1] at h; cases h
+  by_cases c0' : r.varsOk = true
+  case neg => rw [R.2.2.1 c0 c1 (by simpa using c0')] at h; cases h
   by_cases c2 : r.streamRuntime = true
-  case neg => rw [R.2.2.1 c0 c0' (.inr (by simpa using c2))] at h; cases h
+  case neg => rw [R.2.2.2.1 c0 c0' (.inr (by simpa using c2))] at h; cases h
   by_cases c3 : (collectSels r.root []).length = 1
-  case neg => rw [R.2.2.2.1 c0 c0' c1 c2 c3] at h; cases h
+  case neg => rw [R.2.2.2.2.1 c0 c0' c1 c2 c3] at h; cases h
   by_cases c4 : r.fieldDefined = true
-  case neg => rw [R.2.2.2.2.1 c0 c0' c1 c2 c3 (.inl (by simpa using c4))] at h; cases h
+  case neg => rw [R.2.2.2.2.2.1 c0 c0' c1 c2 c3 (.inl (by simpa using c4))] at h; cases h
   by_cases c5 : r.hasSubResolver = true
-  case neg => rw [R.2.2.2.2.1 c0 c0' c1 c2 c3 (.inr (by simpa using c5))] at h; cases h
-  rw [R.2.2.2.2.2 c0 c0' c1 c2 c3 c4 c5] at h
+  case neg => rw [R.2.2.2.2.2.1 c0 c0' c1 c2 c3 (.inr (by simpa using c5))] at h; cases h
+  rw [R.2.2.2.2.2.2 c0 c0' c1 c2 c3 c4 c5] at h
   injection h with h1 h2
   subst h1 h2
   refine ⟨one_result_per_event _ _ _ _, rfl, ?_, ?_⟩
